@@ -115,7 +115,7 @@ def run(ctx, model_ok):
     r0 = C.run_impl(REG + ops)[len(REG):]
     ops2, idx = [], []
     for bi, t in enumerate(base):
-        for (dec, thou) in rng.sample(CONV, 2 if ctx.quick() else 4):
+        for (dec, thou) in (CONV if bi >= first_long else rng.sample(CONV, 2 if ctx.quick() else 4)):
             t2 = render_ints(rewrite(marked[bi], dec, thou, rng), thou)
             # the configuration is reached from whatever the previous case left, by the two setters in either order
             ops2.append({"op": "cfg", "dec": dec, "thou": thou, "order": rng.choice(["dec-first", "thou-first"])})
